@@ -697,6 +697,48 @@ def main():
     flush("catalogue definitions")
     res.exhaustive_parts.append(f"all {n_cat} structure definitions of the catalogue (classes and functions.yaml)")
 
+    # ---- 4b. custom data item classes, written as docs/firststeps/streamsfunctions.md shows (a class derived from DataItemBase)
+    # and made known to structure definitions as attributes of the data_items package: without a `name` attribute, with one equal
+    # to the class name, with one that differs.  The documented key rules speak of "the name of the data item": the class name.
+    import secsgem.secs.variables as varmod  # noqa: PLC0415
+    custom = {
+        "WAFERID": type("WAFERID", (data_items_mod.DataItemBase,), {"__type__": varmod.String, "__count__": 40}),
+        "SLOTNO": type("SLOTNO", (data_items_mod.DataItemBase,), {"__type__": varmod.U1}),
+        "LOTSTATE": type("LOTSTATE", (data_items_mod.DataItemBase,), {"__type__": varmod.Binary, "__count__": 1, "name": "LOTSTATE"}),
+        "SVIDX": type("SVIDX", (data_items_mod.DataItemBase,), {"__type__": varmod.U4, "name": "SVID"}),
+    }
+    try:
+        for cname, ccls in custom.items():
+            setattr(data_items_mod, cname, ccls)
+        gc = Gen(rng, list(custom) + ["SVID", "DATAID", "TRID"])
+        fixed = [("L", None, [("I", "DATAID"), ("L", None, [("I", "WAFERID")])]),
+                 ("L", None, [("I", "DATAID"), ("L", None, [("I", "WAFERID")]), ("L", None, [("I", "SLOTNO")])]),
+                 ("L", None, [("L", None, [("I", "SVIDX")]), ("L", None, [("I", "SVID")])]),
+                 ("L", None, [("I", "WAFERID"), ("I", "SLOTNO"), ("I", "LOTSTATE"), ("I", "SVIDX")]),
+                 ("L", None, [("L", None, [("I", "LOTSTATE")])]),
+                 ("L", "LOTS", [("L", None, [("I", "WAFERID"), ("L", None, [("I", "SLOTNO")])])])]
+        for i in range(len(fixed) + (150 if big else 40)):
+            d = fixed[i] if i < len(fixed) else gc.documented(rng.range(1, 3))
+            if d[0] == "I":
+                d = ("L", None, [d, ("L", None, [gc.item()])])
+                d = gc.fix(d)
+            if not (non_empty(d) and keys_distinct(d) and names_documented(d)):
+                continue
+            text = render_top(rng, d, rng.choice([0, 1, 2]))
+            res.count(("custom-item", text), nontrivial=True, sample={"op": "custom data items", "def": def_sexpr(d), "text": text[:160]} if i < 2 else None)
+            res.bump("family", "custom data item classes")
+            got = impl_parse(text)
+            want = "ok " + doc_shape(d)
+            if not got.startswith("ok") or erase(got[3:]) != want[3:]:
+                res.violate("c19-shape", "a definition over custom data item classes does not get the documented shape (keys are the item class names)",
+                            {"def": def_sexpr(d), "text": text, "kind": "custom data items",
+                             "custom_classes": {"WAFERID": "no name attribute", "SLOTNO": "no name attribute", "LOTSTATE": "name == class name", "SVIDX": "name = 'SVID'"}},
+                            want, got)
+    finally:
+        for cname in custom:
+            if hasattr(data_items_mod, cname):
+                delattr(data_items_mod, cname)
+
     # ---- 5. live classes: the data format each class really carries is the text Gen.Catalogue holds
     import secsgem.secs.functions as fmod  # noqa: PLC0415
     for row in facts["Catalogue"]["py"]:
